@@ -117,7 +117,6 @@ int secp256k1_schnorrsig_aggverify(const secp256k1_context *ctx, const secp256k1
     ARG_CHECK(pubkeys != NULL || n == 0);
     ARG_CHECK(msgs32 != NULL || n == 0);
     ARG_CHECK(aggsig != NULL);
-    ARG_CHECK(secp256k1_ecmult_gen_context_is_built(&ctx->ecmult_gen_ctx));
 
     /* Check that aggsig_len is correct, i.e., aggsig_len = 32*(n+1) */
     if ((aggsig_len / 32) <= 0 || ((aggsig_len / 32)-1) != n || (aggsig_len % 32) != 0) {
@@ -189,7 +188,10 @@ int secp256k1_schnorrsig_aggverify(const secp256k1_context *ctx, const secp256k1
     if (overflow) {
         return 0;
     }
-    secp256k1_ecmult_gen(&ctx->ecmult_gen_ctx, &lhs, &s);
+    /* Verification involves no secrets: use the variable-time multiplication, which
+     * (like secp256k1_schnorrsig_verify) also works with secp256k1_context_static. */
+    secp256k1_gej_set_infinity(&lhs);
+    secp256k1_ecmult(&lhs, &lhs, &secp256k1_scalar_zero, &s);
 
     /* Check that lhs == rhs */
     secp256k1_gej_neg(&lhs, &lhs);
